@@ -2,7 +2,7 @@
 id / count bookkeeping of StreamsManagerBase."""
 import dag as D, util, ts, roles as R
 from dag import strip_casts, show
-from mir import Body, op_local
+from mir import Body, op_local, op_int
 
 SM = R.SM
 PER_LISTENER_QUEUES = ["multi.arc.atomic", "multi.arc.full_sync", "multi.arc.crossbeam", "multi.ogre_arc.atomic", "multi.ogre_arc.full_sync"]
@@ -51,7 +51,7 @@ def drain_loops(body, dg):
                     else: good = y == t[3] and (not zero or y != zero[0])
                 elif e[0] == "discr":
                     ve = util.variant_edges(body, x)
-                    if ve and ve[0] == res:
+                    if ve and (ve[0] == res or ve[0] in util.copies_of(body, res)):      # (the answer may have travelled through an inlined helper's return slot)
                         ty = body.locals[res]["ty"]
                         empty_variant = 0 if ty.startswith("std::option::Option") else 1
                         good = ve[1].get(empty_variant, ve[2]) == y
@@ -318,6 +318,10 @@ def check_rebuild_cursor(ctx, rule):
             if b_ not in body.reachable: continue
             if rv_[0] == "Use" and rv_[1][0] == "k": continue              # initial value
             rr = _root_with_offset(body, rv_[1]) if rv_[0] == "Use" else None
+            if rv_[0] == "Bin" and rv_[1] in ("Add", "AddUnchecked") and op_int(rv_[3]) is not None:      # overflow checks off: `cursor = cursor + 1` is one statement
+                r0 = _root_with_offset(body, rv_[2])
+                if r0 is not None and len(r0) == 2 and r0[0] == "L": r0 = (r0[1], 0, (b_, i_))
+                rr = None if r0 is None or len(r0) != 3 else (r0[0], r0[1] + op_int(rv_[3]), r0[2])
             if rr is not None and len(rr) == 3 and rr[0] == L and rr[1] == 1: incs.append((b_, i_))
             else: why = "the cursor is updated by something else than `+ 1`"
         lp = _innermost_loop(body, rb)
